@@ -14,6 +14,8 @@ type flCase struct {
 	C      string // request: version ; reply: reason
 	Term   string
 	ViaMsg bool
+	Offs   int // start offset of the line in the buffer (bytes of an earlier message before it)
+	Cut    int // > 0: two chunks, the first ends Cut bytes into the line
 }
 
 func (f flCase) line() []byte {
@@ -30,29 +32,65 @@ func evalC08(f flCase, raw []byte) (vs []*Violation) {
 	} else {
 		line = f.line()
 	}
-	buf := append(append([]byte(nil), line...), flTail...)
+	pre := []byte("OPTIONS sip:prev@msg SIP/2.0\r\nCall-ID: p\r\nl: 0\r\n\r\n........................................................................")[:f.Offs]
+	buf := append(append(append([]byte(nil), pre...), line...), flTail...)
 	site := "ParseFLine"
 	if f.ViaMsg {
 		site = "ParseSIPMsg"
 	}
 	add := func(rule, class, detail string) {
 		c := mkCase("C08", site, nil, line, nil)
-		c.Extra = map[string]any{"kind": f.Kind, "a": f.A, "b": f.B, "c": f.C, "term": f.Term, "viamsg": f.ViaMsg}
+		c.Extra = map[string]any{"kind": f.Kind, "a": f.A, "b": f.B, "c": f.C, "term": f.Term, "viamsg": f.ViaMsg, "offs": f.Offs, "cut": f.Cut}
 		vs = append(vs, &Violation{Property: "C08", Site: site, Rule: rule, Class: class, Detail: detail, Case: c})
 	}
 	var fl *sipsp.PFLine
 	var n int
 	var e sipsp.ErrorHdr
 	var msg sipsp.PSIPMsg
+	o := f.Offs
+	_, pmsg := guarded(func() string {
+		c08Parse(&f, buf, &msg, &fl, &n, &e)
+		return ""
+	})
+	if pmsg != "" {
+		add("no-panic", f.Kind, "panic: "+pmsg)
+		return
+	}
+	n -= o
+	get := func(p sipsp.PField) string { return string(p.Get(buf)) }
+	c08Oracle(f, line, buf, fl, &msg, n, e, add, get)
+	return
+}
+
+func c08Parse(f *flCase, buf []byte, msg *sipsp.PSIPMsg, flp **sipsp.PFLine, np *int, ep *sipsp.ErrorHdr) {
+	o := f.Offs
+	var fl *sipsp.PFLine
+	var n int
+	var e sipsp.ErrorHdr
+	defer func() { *flp, *np, *ep = fl, n, e }()
 	if f.ViaMsg {
 		msg.Init(nil, nil, nil)
-		n, e = sipsp.ParseSIPMsg(buf, 0, &msg, sipsp.SIPMsgSkipBodyF)
 		fl = &msg.FL
+		if f.Cut > 0 {
+			if n, e = sipsp.ParseSIPMsg(buf[:o+f.Cut], o, msg, sipsp.SIPMsgSkipBodyF); e == sipsp.ErrHdrMoreBytes {
+				n, e = sipsp.ParseSIPMsg(buf, n, msg, sipsp.SIPMsgSkipBodyF)
+			}
+		} else {
+			n, e = sipsp.ParseSIPMsg(buf, o, msg, sipsp.SIPMsgSkipBodyF)
+		}
 	} else {
 		fl = new(sipsp.PFLine)
-		n, e = sipsp.ParseFLine(buf, 0, fl)
+		if f.Cut > 0 {
+			if n, e = sipsp.ParseFLine(buf[:o+f.Cut], o, fl); e == sipsp.ErrHdrMoreBytes {
+				n, e = sipsp.ParseFLine(buf, n, fl)
+			}
+		} else {
+			n, e = sipsp.ParseFLine(buf, o, fl)
+		}
 	}
-	get := func(p sipsp.PField) string { return string(p.Get(buf)) }
+}
+
+func c08Oracle(f flCase, line, buf []byte, fl *sipsp.PFLine, msg *sipsp.PSIPMsg, n int, e sipsp.ErrorHdr, add func(rule, class, detail string), get func(p sipsp.PField) string) {
 	switch f.Kind {
 	case "nearmiss":
 		if e == 0 {
@@ -169,6 +207,28 @@ func checkC08(r *Run) {
 		for _, v := range vs {
 			r.Col.add(v)
 		}
+		// the same line behind an earlier message and delivered in two chunks: every cut inside the line (+2)
+		if i%r.pick(4, 1) != 0 {
+			return
+		}
+		ll := len(cases[i].line())
+		for _, off := range []int{0, 57, 100} {
+			for cut := 0; cut <= ll+2; cut++ {
+				if off == 0 && cut == 0 {
+					continue
+				}
+				if off == 100 && cut%5 != 0 {
+					continue
+				}
+				f := cases[i]
+				f.Offs, f.Cut = off, cut
+				c.st.Evals++
+				c.st.Transitions += 2
+				for _, v := range evalC08(f, nil) {
+					r.Col.add(v)
+				}
+			}
+		}
 	})
 	for cls, ls := range near {
 		for _, l := range ls {
@@ -199,7 +259,7 @@ func init() {
 		ex := c.Extra
 		s := func(k string) string { v, _ := ex[k].(string); return v }
 		via, _ := ex["viamsg"].(bool)
-		f := flCase{Kind: s("kind"), A: s("a"), B: s("b"), C: s("c"), Term: s("term"), ViaMsg: via}
+		f := flCase{Kind: s("kind"), A: s("a"), B: s("b"), C: s("c"), Term: s("term"), ViaMsg: via, Offs: exInt(ex, "offs"), Cut: exInt(ex, "cut")}
 		return evalC08(f, c.input())
 	}
 	register("C08", &checkDef{fn: checkC08,
